@@ -108,7 +108,7 @@ def handleFmt (cfgS inpS kindsS linesS postS changedS alnumS : String) : String 
       let marksS := showList ((marks.zipIdx.filter (·.1)).map fun (_, i) => toString i)
       let pre := showList (ft1.map fun t => showFmt t.fmt)
       let prec := showChanged (raw.map (·.content)) (ft1.map (·.tok.content))
-      s!"marks={marksS}\tlv={showLines lines'}\tpre={pre}\tprec={prec}\tkr=1\twc={bool01 wc}\tnd={bool01 ndOk}\tout={toHex out}"
+      s!"marks={marksS}\tlv={showLines lines'}\tpre={pre}\tprec={prec}\tkr=1\twc={bool01 wc}\tnd={bool01 ndOk}\tout={toHex out}\tinfo_sr={bool01 (safeRunAllGo false ft2)}\tinfo_sn={bool01 (noSafetyNetGo false ft2)}\tinfo_cn={bool01 (canonAll ft2)}\tinfo_nn={bool01 (noNlAll ft2)}\tinfo_nt={bool01 (noTabAll ft2)}"
   | _, _, _, _, _, _, _ => "bad-record"
 
 def handleLine (line : String) : String :=
